@@ -1,4 +1,5 @@
 import Utv.Model.C08Spec
+import Utv.Lemmas.C08
 /-!
 C08 — decorated functions get Python's binding with conforming arguments and result.
 -/
@@ -9,11 +10,7 @@ variable {N V T : Type} [DecidableEq N] [DecidableEq V]
 /-! ### generators: the wrappers are the undecorated generator with every value converted -/
 
 theorem convBy_eq_convO (W : World N V T) (t : Option T) (v : V) :
-    convBy W t v = match Spec.convO W t v with | some x => .ok x | none => .error .perr := by
-  unfold convBy Spec.convO
-  cases t with
-  | none => rfl
-  | some t => cases W.conv t v <;> rfl
+    convBy W t v = match Spec.convO W t v with | some x => .ok x | none => .error .perr := convBy_eq W t v
 
 /-- a sent value as the wrapper hands it to the raw generator: converted, or the conversion failed -/
 def convInp (W : World N V T) (g : GenTypes T) : Option V → Option (Option V)
@@ -102,5 +99,208 @@ theorem C08_gen_trace (W : World N V T) (g : GenTypes T) {σ : Type} (step : σ 
     (st : σ) (sends : List (Option V)) :
     wrapTrace W g step st none sends = Spec.genTrace W g step st none sends := by
   rw [genTrace_eq_wrapTrace]; rfl
+
+/-! ### the binding -/
+
+/-- what `parse_data` hands over, whichever search strategy `Options.data_first_search` selects -/
+theorem parseData_obs (W : World N V T) (hW : LowerIdem W) (s : Sig N V T) (wf : WF W s) (o : Opts)
+    (excl : List N) (kw : List (N × V))
+    (h1 : ∀ e ∈ kw, e.1 ∉ s.excludeVars W)
+    (h3 : ∀ e ∈ kw, ∀ f, resolve W (s.fields W) e.1 = some f → f.posOnly = false → excl.contains f.name = false)
+    (h5 : s.vk = none → ∀ e ∈ kw, s.kwTarget (Spec.normKey W s e.1) = true)
+    (hn : ((Spec.normalise W s kw).map (·.1)).Nodup)
+    (hpo : ∀ f ∈ s.fields W, f.posOnly = true → excl.contains f.name = true)
+    (hreq : ∀ f ∈ s.fields W, excl.contains f.name = false →
+        ((Spec.normalise W s kw).lookup f.name).isSome = true ∨ f.dflt.isSome = true) :
+    match Spec.convKw W s (Spec.normalise W s kw) with
+    | none => parseData W s o excl kw = .error .perr
+    | some c => ∃ kw', parseData W s o excl kw = .ok kw' ∧ Obs W s excl c kw' := by
+  unfold parseData
+  by_cases hd : useDfs W s o = true
+  · simp only [hd, if_true]
+    exact dataFirst_obs W hW s wf o excl kw h1 h3 h5 hn hpo hreq
+  · simp only [hd, Bool.false_eq_true, if_false]
+    exact fieldFirst_obs W hW s wf o excl kw h1 h3 h5 hn hpo hreq
+
+/-
+**C08 (binding), full statement** — false of the code as it stands, see the two witnesses below:
+
+    theorem C08_binding (W) (hW : LowerIdem W) (s) (wf : WF W s) (o) (args) (kw) (out)
+        (hexp : Spec.expected W s args kw = some out) : call W s o args kw = out
+
+It fails exactly where utype's documented design departs from Python: private (underscore) parameters are not
+fields — they are never converted (`KnownDefect.privateAnnotated`) and are ignored when passed by keyword
+(`KnownDefect.privateKw`).  Both predicates are decidable; outside them the statement holds in full:
+-/
+
+/-- **C08 (binding).**  For every transformer, every well-formed declaration over the five parameter kinds with
+annotations, defaults and `Param(alias, alias_from, case_insensitive)` settings, every `Options.data_first_search` /
+`ignore_alias_conflicts`, and every call (any number of positional values, any keywords under any accepted
+spelling): if Python binds the call (accepted spellings read as the parameter's name), then
+* when some given value does not convert to the annotation of the parameter it goes to, the call raises a ParseError
+  and the body does not run;
+* otherwise the body runs with exactly Python's binding of the converted call — each given value converted to its
+  parameter's (or `*args` / `**kwargs`') annotation, each omitted parameter at its declared default;
+provided no keyword names a private parameter and no private parameter is annotated (the two known findings). -/
+theorem C08_binding_partial (W : World N V T) (hW : LowerIdem W) (s : Sig N V T) (wf : WF W s) (o : Opts)
+    (args : List V) (kw : List (N × V)) (out : Outcome N V)
+    (hk : KnownDefect.privateKw W s kw = false) (ha : KnownDefect.privateAnnotated W s = false)
+    (hexp : Spec.expected W s args kw = some out) :
+    call W s o args kw = out := by
+  unfold Spec.expected at hexp
+  simp only at hexp
+  cases hpb : Spec.pyBind s args (Spec.normalise W s kw) with
+  | none => simp [hpb] at hexp
+  | some b0 =>
+    simp only [hpb] at hexp
+    unfold Spec.pyBind at hpb
+    split at hpb
+    · rename_i hn
+      obtain ⟨hlen, ⟨bp, hbp⟩, ⟨bk, hbk⟩, hvk⟩ := pyBindCore_some s args _ b0 hpb
+      -- the hypotheses of the keyword half
+      have h1 : ∀ e ∈ kw, e.1 ∉ s.excludeVars W := by
+        intro e he hmem
+        have : KnownDefect.privateKw W s kw = true := by
+          unfold KnownDefect.privateKw
+          exact List.any_eq_true.mpr ⟨e, he, by simpa using hmem⟩
+        rw [hk] at this; cases this
+      have hpa : ∀ p ∈ s.pos, W.priv p.name = true → p.ann = none := by
+        intro p hp hpriv
+        cases hann : p.ann with
+        | none => rfl
+        | some t =>
+          exfalso
+          have : KnownDefect.privateAnnotated W s = true := by
+            unfold KnownDefect.privateAnnotated
+            exact List.any_eq_true.mpr ⟨p, List.mem_append_left _ hp, by simp [hpriv, hann]⟩
+          rw [ha] at this; cases this
+      have hpos_names : (s.pos.map (·.name)).Nodup := by
+        have := wf.names_nodup
+        rw [List.map_append] at this
+        exact (List.nodup_append.mp this).1
+      obtain ⟨excl, hexcl⟩ : ∃ excl, excl = keysOf W s.pos args := ⟨_, rfl⟩
+      have h3 : ∀ e ∈ kw, ∀ f, resolve W (s.fields W) e.1 = some f → f.posOnly = false →
+          excl.contains f.name = false := by
+        intro e he f hr hpo
+        cases hc : excl.contains f.name with
+        | false => rfl
+        | true =>
+          exfalso
+          have hm : f.name ∈ excl := by simpa using hc
+          rw [hexcl] at hm
+          obtain ⟨q, hq, hqn, hq'⟩ := keysOf_given W _ s.pos args bp f.name hbp hm
+          obtain ⟨hnk, hkwp, _, _, _⟩ := key_field W hW s wf e.1 (h1 e he) f hr hpo
+          have hqf : q = f := eq_of_name_eq wf.names_nodup (List.mem_append_left _ hq)
+            (kwParams_sub W hW s wf f hkwp).1 hqn
+          subst hqf
+          rcases hq' with h | h
+          · rw [hpo] at h; cases h
+          · have hmem : (q.name, e.2) ∈ Spec.normalise W s kw := by
+              simp only [Spec.normalise, List.mem_map]; exact ⟨e, he, by rw [hnk]⟩
+            have := lookup_of_mem_nodup _ hn _ hmem
+            simp only at this
+            rw [h] at this; cases this
+      have h5 : s.vk = none → ∀ e ∈ kw, s.kwTarget (Spec.normKey W s e.1) = true := by
+        intro hv e he
+        have hnil := hvk hv
+        rw [List.filter_eq_nil_iff] at hnil
+        have := hnil (Spec.normKey W s e.1, e.2)
+          (by simp only [Spec.normalise, List.mem_map]; exact ⟨e, he, rfl⟩)
+        simpa using this
+      have hpo : ∀ f ∈ s.fields W, f.posOnly = true → excl.contains f.name = true := by
+        intro f hf hfpo
+        obtain ⟨hmem, hnp⟩ := (mem_fields W s f).mp hf
+        have hfp : f ∈ s.pos := by
+          rcases List.mem_append.mp hmem with h | h
+          · exact h
+          · rw [wf.kos_not_po f h] at hfpo; cases hfpo
+        rw [hexcl]
+        simpa using po_mem_keysOf W s.pos args f hfp hfpo hnp
+      have hreq : ∀ f ∈ s.fields W, excl.contains f.name = false →
+          ((Spec.normalise W s kw).lookup f.name).isSome = true ∨ f.dflt.isSome = true := by
+        intro f hf hex
+        obtain ⟨hmem, hnp⟩ := (mem_fields W s f).mp hf
+        rcases List.mem_append.mp hmem with h | h
+        · refine not_keysOf_omitted W _ s.pos args bp f hbp h hnp ?_
+          intro hm
+          rw [← hexcl] at hm
+          have : excl.contains f.name = true := by simpa using hm
+          rw [hex] at this; cases this
+        · exact bindKos_mem _ s.kos bk hbk f h
+      have hpd := parseData_obs W hW s wf o excl kw h1 h3 h5 hn hpo hreq
+      have hps := posStage_eq W s (Spec.normalise W s kw) s.pos args bp hpa hbp hlen
+      unfold call parseParams
+      cases hca : Spec.convArgs W (s.vp.bind (·.2)) s.pos args with
+      | none =>
+        simp only [hca] at hps hexp
+        cases hexp
+        simp [hps]
+      | some cas =>
+        simp only [hca] at hps hexp
+        obtain ⟨fill, hfill, hps'⟩ := hps
+        simp only [hps', ← hexcl]
+        cases hck : Spec.convKw W s (Spec.normalise W s kw) with
+        | none =>
+          simp only [hck] at hpd hexp
+          cases hexp
+          simp [hpd]
+        | some c =>
+          simp only [hck] at hpd hexp
+          obtain ⟨kw', hpd', hobs1, hobs2⟩ := hpd
+          simp only [hpd']
+          have hckeys : c.map (·.1) = (Spec.normalise W s kw).map (·.1) := convKw_keys W s _ c hck
+          have hkeys : ∀ x, (Spec.normalise W s kw).lookup x = none → c.lookup x = none := by
+            intro x hx
+            rw [lookup_eq_none_iff_not_mem] at hx ⊢
+            rw [hckeys]; exact hx
+          have hprivkey : ∀ p ∈ Spec.kwParams s, W.priv p.name = true → c.lookup p.name = none := by
+            intro p hp hpriv
+            apply hkeys
+            rw [lookup_eq_none_iff_not_mem]
+            intro hmem
+            simp only [Spec.normalise, List.map_map, List.mem_map, Function.comp] at hmem
+            obtain ⟨e, he, hne⟩ := hmem
+            rcases key_cases W hW s wf excl kw h1 h3 e he with ⟨f, hf, h2, h3', _, _⟩ | ⟨h2, h3'⟩
+            · have hfp : f = p := eq_of_name_eq wf.names_nodup (kwParams_sub W hW s wf f hf).1
+                (kwParams_sub W hW s wf p hp).1 (by rw [← h2, hne])
+              subst hfp
+              rw [hpriv] at h3'; cases h3'
+            · rw [h2] at hne
+              rw [hne, (kwTarget_iff s _).mpr ⟨p, hp, rfl⟩] at h3'; cases h3'
+          have hcaslen : cas.length = args.length := convArgs_length W _ s.pos args cas hca
+          have hposok : PosOK kw' c s.pos cas.length := by
+            rw [hcaslen]
+            exact posOK_of_obs W s kw' c (Spec.normalise W s kw) excl hobs1 hprivkey hkeys s.pos args bp []
+              (fun p hp => hp) hpos_names (by intro p _ h; cases h) (by simpa using hexcl) hbp
+          have hfinal : pyBindCore s (cas ++ fill) kw' = pyBindCore s cas c := by
+            apply pyBindCore_final
+            · exact bindPos_final W kw' c s.pos cas fill hposok wf.po_first (by rw [hcaslen]; exact hfill)
+            · apply bindKos_congr
+              intro p hp
+              have hkwp : p ∈ Spec.kwParams s := (mem_kwParams s p).mpr (Or.inr hp)
+              rw [hobs1 p hkwp]
+              have hnex : excl.contains p.name = false := by
+                cases hc : excl.contains p.name with
+                | false => rfl
+                | true =>
+                  exfalso
+                  have hm : p.name ∈ excl := by simpa using hc
+                  rw [hexcl] at hm
+                  have h1' := keysOf_sub_names W s.pos args _ hm
+                  have hnd := wf.names_nodup
+                  rw [List.map_append, List.nodup_append] at hnd
+                  exact hnd.2.2 _ h1' _ (List.mem_map_of_mem hp) rfl
+              by_cases hpriv : W.priv p.name = true
+              · simp [hpriv, hprivkey p hkwp hpriv]
+              · have hpriv' : W.priv p.name = false := by simpa using hpriv
+                simp only [hpriv', hnex, Bool.or_self, Bool.false_eq_true, if_false]
+                cases c.lookup p.name <;> simp
+            · exact hobs2
+            · rw [hcaslen]; exact fillPo_length W _ true fill hfill
+          rw [hfinal]
+          cases hb : pyBindCore s cas c with
+          | none => simp [hb] at hexp
+          | some b' => simp [hb] at hexp; exact hexp
+    · cases hpb
 
 end Utv.C08
